@@ -88,7 +88,9 @@ fn wide_prog() -> impl Strategy<Value = String> {
 }
 
 fn input() -> impl Strategy<Value = String> {
-    (option_prefix(), prop_oneof![c14::sprog().prop_map(|p| p.render()), wide_prog()]).prop_map(|(o, p)| if o.is_empty() { p } else { format!("{} {}", o, p) })
+    // (a fifth of the pool is not a valid program at all: token soups of the C15 vocabulary - whatever a
+    // rejected or odd invocation leaves behind must not reach the next expansion)
+    (option_prefix(), prop_oneof![2 => c14::sprog().prop_map(|p| p.render()), 2 => wide_prog(), 1 => crate::c15::soup()]).prop_map(|(o, p)| if o.is_empty() { p } else { format!("{} {}", o, p) })
 }
 
 pub fn history() -> impl Strategy<Value = History> {
